@@ -738,6 +738,38 @@ func k17Lin(c k17LinCase, emit func(any)) {
 			}
 		})
 		finish(&rec, sol)
+	case "bicgit":
+		// iteration limit only: the solver keeps being asked after it has converged exactly
+		for _, manual := range []bool{false, true} {
+			rec := base
+			rec.Site = "numerical.BiCGSTABSolver.SolveLinearSystem(MaxIters)"
+			if manual {
+				rec.Site = "numerical.BiCGSTAB.Iter"
+			}
+			rec.MaxIt = 4
+			var sol [][]float64
+			rec.Outcome, rec.Panic = withDeadline(5*time.Second, func() {
+				sp := k17Sparse(c.A)
+				b := make(numerical.Vec, c.N)
+				for i := range b {
+					b[i] = float64(c.B[i][0])
+				}
+				var x numerical.Vec
+				if manual {
+					it := numerical.NewBiCGSTAB(sp.Apply, b, nil)
+					for i := 0; i < rec.MaxIt; i++ {
+						x = it.Iter()
+					}
+				} else {
+					x = (&numerical.BiCGSTABSolver{MaxIters: rec.MaxIt}).SolveLinearSystem(sp.Apply, b, nil)
+				}
+				rec.TolOK = true
+				for _, v := range x {
+					sol = append(sol, []float64{v})
+				}
+			})
+			finish(&rec, sol)
+		}
 	default:
 		fatal("c17: unknown linsolve sub %q", c.Sub)
 	}
@@ -1050,6 +1082,10 @@ type k17BezRec struct {
 
 	Len   int  `json:"len"` // Length(1e-6, 0)
 	LenEx bool `json:"lenEx"`
+	// |Length(1e-6) - length of the polyline through 16384 Eval samples| and
+	// |Length(b) - Length(left half) - Length(right half)| as decimal exponents (k17Bucket)
+	LenArc int `json:"lenArc"`
+	LenAdd int `json:"lenAdd"`
 	Raw   string `json:"raw"`
 }
 
@@ -1133,6 +1169,17 @@ func k17Bez(c k17BezCase, emit func(any)) {
 		rec.Iy, rec.IyEx = k17Ints(iy, float64(c.D))
 		l := b.Length(1e-6, 0)
 		rec.Len, rec.LenEx = k17Int(l, 1)
+		const nPoly = 16384
+		lp := 0.0
+		prev := b.Eval(0)
+		for i := 1; i <= nPoly; i++ {
+			cur := b.Eval(float64(i) / nPoly)
+			lp += cur.Dist(prev)
+			prev = cur
+		}
+		rec.LenArc = k17Bucket(l - lp)
+		h1, h2 := b.Split(0.5)
+		rec.LenAdd = k17Bucket(l - h1.Length(1e-6, 0) - h2.Length(1e-6, 0))
 		rec.Raw = k17Raw(map[string]any{"ev": ev, "len": l, "ix": ix})
 	})
 	emit(rec)
